@@ -81,14 +81,17 @@ def fsel_from(spec):
     raise ValueError(spec)
 
 
-def check_read(pck, pf, fsel, lv, bsel, fails, counter, via="getitem"):
+def check_read(pck, pf, fsel, lv, bsel, fails, counter, via="getitem", stream=None):
+    """stream: a level stream obtained earlier and used again (reads through one object must not influence each other)"""
     names = list(pf.names)
     fs = spec_fields(names, fsel)
     bs = spec_boxes(pf.nboxes(lv), bsel)
     what = f"pck[{desc(fsel)}][{lv}][{desc(bsel)}]" if via == "getitem" else f"pck[{desc(fsel)}][{lv}].iter({desc(bsel)})"
     counter[0] += 1
+    if stream is not None:
+        what += "  (second and later reads through one held stream object)"
     try:
-        stream = pck[fsel][lv]
+        stream = pck[fsel][lv] if stream is None else stream
         res = stream[bsel] if via == "getitem" else stream.iter(bsel)
         if via == "iter" and not isinstance(bsel, int):
             res = list(res)
@@ -137,7 +140,7 @@ def run_reader_scenario(p, wd):
         return {"fails": fails, "checks": counter[0]}
     nd, nf = p["ndims"], p["nf"]
     names = [f"f{i}" if i % 2 else f"Y(S{i})" for i in range(nf)]
-    n0 = (16, 16, 16)[:nd] if nd == 3 else (32, 16)
+    n0 = tuple(p["n0"]) if p.get("n0") else ((16, 16, 16)[:nd] if nd == 3 else (32, 16))
     special = None
     pf = gen.make_pf(ndims=nd, names=names, n0=n0, geo_lo=(1., 2., 3.)[:nd], dx0=(0.1, 0.2, 0.4)[:nd],
                      nlevels=p["nlevels"], nfiles=p["nfiles"], layout=p["layout"], seed=p["seed"], box=8,
@@ -170,6 +173,14 @@ def run_reader_scenario(p, wd):
         for fsel in rng.sample(fsels, 3):
             for bsel in bsel_pool:
                 check_read(pck, pf, fsel, lv, bsel, fails, counter)
+        # a held stream used for several reads (list selections not starting at field 0 included)
+        for fsel in ([[nf - 1]] + ([[1, nf - 1], names[1:]] if nf >= 3 else [])):
+            try:
+                held = pck[fsel][lv]
+            except Exception:
+                continue
+            for bsel in (0, nb - 1, perm[:3], 0):
+                check_read(pck, pf, fsel, lv, bsel, fails, counter, stream=held)
         check_read(pck, pf, rng.choice(fsels), lv, perm[:4], fails, counter, via="iter")
         check_read(pck, pf, rng.choice(fsels), lv, slice(0, None, 2), fails, counter, via="iter")
         for fsel in bad_f:
@@ -210,7 +221,7 @@ def run_iter_scenario(p, wd):
     else:
         nd, nf = p["ndims"], p["nf"]
         names = [f"v{i}" for i in range(nf)]
-        n0 = (16, 16, 16) if nd == 3 else (32, 16)
+        n0 = tuple(p["n0"]) if p.get("n0") else ((16, 16, 16) if nd == 3 else (32, 16))
         pf = gen.make_pf(ndims=nd, names=names, n0=n0, geo_lo=(0.5, -1., 2.)[:nd], dx0=(0.25, 0.5, 1.0)[:nd],
                          nlevels=p["nlevels"], nfiles=p["nfiles"], layout=p["layout"], seed=p["seed"], box=8,
                          box_sizes=(8, 16) if p["seed"] % 2 else None)
